@@ -110,20 +110,37 @@ Section Ops.
     simpl. intros Hp. destruct (inv_row _ _ HI i0) as [t [? [? ?]]]; [apply in_mid; auto | auto |]. eauto.
   Qed.
 
-  Lemma do_delete_good : forall st o st', Inv (insts st) (db st) -> do_delete sc st o = Ok st' ->
+  Lemma delete_one_good : forall st o st', Inv (insts st) (db st) -> delete_one st o = Ok st' ->
     Inv (insts st') (db st') /\ logs st st'.
   Proof.
-    intros st o st' HI H. unfold do_delete in H.
+    intros st o st' HI H. unfold delete_one in H.
     destruct (nth_error (insts st) o) as [i0|] eqn:En; [|discriminate].
     destruct (i_life i0) eqn:El; try discriminate. destruct (i_tok i0) as [t|] eqn:Et; [|discriminate].
-    destruct (flush sc st) as [st1|] eqn:Ef; [|discriminate]. injection H as <-. simpl.
-    pose proof (flush_inv _ _ _ Ef HI) as HI1.
-    destruct (Forall2_nth _ _ _ _ _ (flush_frel _ _ _ Ef) En) as [i1 [En1 Hr]].
-    unfold frel in Hr. rewrite El in Hr. destruct Hr as [Hl1 [Ht1 Hc1]].
-    destruct (nth_split _ _ _ En1) as [pre [post [Hs Hlen]]]. subst o.
-    rewrite Hs in *. rewrite upd_nth_split. rewrite <- Hc1. split.
-    - apply inv_gone; auto; congruence.
-    - eapply logs_trans; [apply (flush_logs _ _ Ef)|]. exists [WDel t (r_pk (i_cur i1))]. simpl. auto.
+    injection H as <-. simpl.
+    destruct (nth_split _ _ _ En) as [pre [post [Hs Hlen]]]. subst o.
+    rewrite Hs in *. rewrite upd_nth_split. split.
+    - apply inv_gone; auto.
+    - exists [WDel t (r_pk (i_cur i0))]. simpl. auto.
+  Qed.
+
+  Lemma delete_all_good : forall os st st', Inv (insts st) (db st) -> delete_all st os = Ok st' ->
+    Inv (insts st') (db st') /\ logs st st'.
+  Proof.
+    induction os as [|o os IH]; simpl; intros st st' HI H.
+    - injection H as <-. split; auto. now apply logs_refl.
+    - destruct (delete_one st o) as [s1|] eqn:E; [|discriminate].
+      destruct (delete_one_good _ _ _ HI E) as [HI1 HL1]. destruct (IH _ _ HI1 H) as [HI2 HL2].
+      split; auto. eapply logs_trans; eauto.
+  Qed.
+
+  Lemma do_delete_good : forall st os st', Inv (insts st) (db st) -> do_delete sc st os = Ok st' ->
+    Inv (insts st') (db st') /\ logs st st'.
+  Proof.
+    intros st os st' HI H. unfold do_delete in H.
+    destruct (forallb (valid_del st) os); [|discriminate].
+    destruct (flush sc st) as [st1|] eqn:Ef; [|discriminate].
+    destruct (delete_all_good _ _ _ (flush_inv _ _ _ Ef HI) H) as [HI2 HL2].
+    split; auto. eapply logs_trans; [apply (flush_logs _ _ Ef) | exact HL2].
   Qed.
 
   Lemma do_refresh_good : forall st o st', Inv (insts st) (db st) -> do_refresh sc st o = Ok st' ->
@@ -163,6 +180,30 @@ Section Ops.
     split; auto. destruct (flush_logs _ _ Ef) as [delta [Hw1 Ha]]. exists delta. rewrite Hw, Hd. auto.
   Qed.
 
+  Lemma do_get_good : forall st k t st' ro, Inv (insts st) (db st) -> do_get sc ic ec st k t = Ok (st', ro) ->
+    Inv (insts st') (db st') /\ logs st st'.
+  Proof.
+    intros st k t st' ro HI E. destruct (do_get_cases _ _ _ _ _ E) as [[-> _]|[os [Eq _]]].
+    - split; auto. now apply logs_refl.
+    - eapply do_query_good; eauto.
+  Qed.
+
+  Lemma do_merge_good : forall st r t st' ro, Inv (insts st) (db st) -> do_merge sc ic ec st r t = Ok (st', ro) ->
+    Inv (insts st') (db st') /\ logs st st'.
+  Proof.
+    intros st r t st' ro HI H. unfold do_merge in H.
+    destruct (flush sc st) as [st1|] eqn:Ef; [|discriminate].
+    pose proof (flush_inv _ _ _ Ef HI) as HI1. pose proof (flush_logs _ _ Ef) as HL1.
+    destruct (do_get sc ic ec st1 (r_pk r) (Some t)) as [[st2 [o|]]|] eqn:Eg; [| |discriminate].
+    - destruct (do_get_good _ _ _ _ _ HI1 Eg) as [HI2 HL2].
+      destruct (do_set st2 o (r_grp r) (r_val r)) as [st3|] eqn:Es; [|discriminate]. injection H as <- <-.
+      destruct (do_set_good _ _ _ _ _ HI2 Es) as [HI3 HL3]. split; auto.
+      eapply logs_trans; [exact HL1|]. eapply logs_trans; eauto.
+    - destruct (do_get_good _ _ _ _ _ HI1 Eg) as [HI2 HL2]. injection H as <- <-. simpl. split.
+      + now apply inv_add.
+      + eapply logs_trans; [exact HL1|]. destruct HL2 as [delta [? ?]]. exists delta. auto.
+  Qed.
+
   Lemma step_good : forall d0 st o st' r, Good d0 st -> step sc ic ec st o = Ok (st', r) -> Good d0 st'.
   Proof.
     intros d0 st o st' r HG H. pose proof (proj1 HG) as HI.
@@ -174,14 +215,14 @@ Section Ops.
       split; [eapply flush_inv; eauto | eapply flush_logs; eauto].
     - unfold do_commit in H. destruct (flush sc st) as [s|] eqn:E; [|discriminate]. injection H as <- <-. simpl.
       split; [eapply flush_inv; eauto|]. destruct (flush_logs _ _ E) as [delta [? ?]]. exists delta. auto.
-    - destruct (do_delete sc st o) as [s|] eqn:E; [|discriminate]. injection H as <- <-. eapply do_delete_good; eauto.
+    - destruct (do_delete sc st os) as [s|] eqn:E; [|discriminate]. injection H as <- <-. eapply do_delete_good; eauto.
     - destruct (do_query sc ec st q tgt) as [[s os]|] eqn:E; [|discriminate]. injection H as <- <-.
       eapply do_query_good; eauto.
     - destruct (do_get sc ic ec st k t) as [[s ro]|] eqn:E; [|discriminate]. injection H as <- <-.
-      destruct (do_get_cases _ _ _ _ _ E) as [[-> _]|[os [Eq _]]].
-      + split; auto. now apply logs_refl.
-      + eapply do_query_good; eauto.
+      eapply do_get_good; eauto.
     - destruct (do_refresh sc st o) as [s|] eqn:E; [|discriminate]. injection H as <- <-. eapply do_refresh_good; eauto.
+    - destruct (do_merge sc ic ec st r0 t) as [[s ro]|] eqn:E; [|discriminate]. injection H as <- <-.
+      eapply do_merge_good; eauto.
   Qed.
 
   Lemma run_good : forall d0 ops st st', Good d0 st -> run sc ic ec st ops = Ok st' -> Good d0 st'.
